@@ -187,4 +187,22 @@ def cross_corpus():
     # a longer token that extends a higher-priority shorter one by exactly one byte (promptness of partial lexing)
     out.append('#[derive(Logos)] enum X%d { #[token("=", priority = 10)] Eq, #[token("==")] EqEq, #[regex("[a-z]+")] W }' % k); k += 1
     out.append('#[derive(Logos)] enum X%d { #[token("if")] If, #[regex("[a-z]*!")] Macro, #[token(" ")] Sp }' % k); k += 1
+    # wide enums (more than 64 leaves) with one equal-priority overlap whose second member sits at every position
+    # from 60 to 79, next to a lower-priority overlap early in the enum: the tie must be reported wherever it is
+    for pos in range(60, 80):
+        vs = []
+        for i in range(80):
+            if i == 5:
+                vs.append('#[regex("[0-9u-z]+", priority = 1)] Tail')
+            elif i == 6:
+                vs.append('#[regex("[a-z]+")] Ident')
+            elif i == pos:
+                vs.append('#[regex("[a-t]+")] Word')
+            else:
+                vs.append('#[token("%%%02d")] F%d' % (i, i))
+        out.append('#[derive(Logos)] enum X%d { %s }' % (k, ', '.join(vs))); k += 1
+    # multi-byte literal tokens next to a pattern whose explicit priority lies between 2 x characters and 2 x bytes
+    for args in ('', ', ignore(case)'):
+        for hdr in ('', '#[logos(utf8 = false)] '):
+            out.append('#[derive(Logos)] %senum X%d { #[token("\u00e9t\u00e9"%s)] Summer, #[regex("[a-z\u00e0-\u00ff]+", priority = 7)] Word, #[token(" ")] Sp }' % (hdr, k, args)); k += 1
     return out
